@@ -28,6 +28,11 @@ def obligations(tier):
                  no_std=["--pointer-overflow-check", "--signed-overflow-check", "--undefined-shift-check"],
                  encodes=["ABTI_ythread_exit", "ABTI_ythread_atomic_get_joiner", "ABTI_ythread_callback_exit", "ABTI_ythread_callback_suspend_join", "ABTI_ythread_resume_and_push", "ABTI_ythread_jump_to_sibling_internal"],
                  bounds="1 exiting ULT, 1 joiner, <=1 environment step per scheduling point; the wait for the link is cut after 3 rounds (a joiner that claimed the join links eventually)", symbolic="how far the joiner got, when its pieces run, whether it last ran on T's stream", timeout=300))
+    o.append(Obl("cancel_focus", "C03/exit.c", "the real cancel handler (ABTI_thread_handle_request_cancel, run by the scheduler that popped a cancelled ULT) as focus with the joiner's two real handshake pieces placed at any of its atomic instructions: a linked joiner is woken exactly once (re-pushed), never left behind, the unit ends TERMINATED, the handler never finishes while a joiner has claimed the join but not linked",
+                 real=["src/thread.c", "src/ythread.c", "src/arch/abtd_futex.c"], hooks=True, defs=["VR_REAL_REQUESTS", "CANCEL"], unwind=4, cut_loops=["ABTD_spinlock_acquire.0", "ABTD_spinlock_acquire.1", "ABTI_ythread_atomic_get_joiner@while:3", "ABTI_ythread_resume_joiner@while"], object_bits=12, backend="cadical",
+                 no_std=["--pointer-overflow-check", "--signed-overflow-check", "--undefined-shift-check"],
+                 encodes=["ABTI_thread_handle_request_cancel", "ABTI_ythread_resume_joiner", "ABTI_ythread_atomic_get_joiner", "ABTI_thread_terminate", "ABTI_ythread_callback_suspend_join"],
+                 bounds="1 cancelled ULT, 1 joiner, <=1 environment step per scheduling point", symbolic="how far the joiner got, when its pieces run", timeout=300))
     # nesting depth 2 adds nothing here: the only environment agent (the target) is busy while one of its steps runs
     return o
 
